@@ -33,7 +33,7 @@ def make_config(prop, rng, tier):
     return {
         "prop": prop, "tier": tier, "max_steps": rng.choice([8, 14, 20]),
         "kinds": kinds, "fringe": fringe,
-        "max_boxes": rng.choice([3, 5, 8, 10]), "max_wires": rng.choice([3, 4, 5]),
+        "max_boxes": rng.choice([5, 8, 10] if fringe else [3, 5, 8, 10]), "max_wires": rng.choice([3, 4, 5]),
         "p_fail": rng.choice([0.0, 0.0, 0.15, 0.3]),
         "p_import": rng.choice([0.1, 0.25, 0.5]),
         "batch_max": rng.choice([1, 2, 3]),
@@ -134,6 +134,8 @@ def gen_circuit_spec(rng, cfg):
                 ok.append(k)
             elif k == "bits0" and len(wires) < max_w:
                 ok.append(k)
+                if bpos:
+                    ok.append(k)
             elif k in ("g1", "rot", "measure", "discard", "bra") and qpos:
                 ok.append(k)
             elif k == "measure_nd" and qpos and len(wires) < max_w:
@@ -160,8 +162,9 @@ def gen_circuit_spec(rng, cfg):
             wires[at:at] = ["q"] * n
         elif k == "bits0":
             at = rng.randint(0, len(wires))
-            spec.append({"g": "Bits", "bits": [0], "at": at})
-            wires[at:at] = ["b"]
+            n = 2 if len(wires) + 2 <= max_w and rng.random() < 0.25 else 1
+            spec.append({"g": "Bits", "bits": [0] * n, "at": at})
+            wires[at:at] = ["b"] * n
         elif k == "g1":
             spec.append({"g": rng.choice(["H", "S", "T", "X", "Y", "Z"]), "at": rng.choice(qpos)})
         elif k == "rot":
@@ -175,9 +178,14 @@ def gen_circuit_spec(rng, cfg):
         elif k == "swapq":
             spec.append({"g": "SWAP", "at": rng.choice(adjq)})
         elif k == "measure":
-            at = rng.choice(qpos)
-            spec.append({"g": "Measure", "at": at})
-            wires[at] = "b"
+            if adjq and rng.random() < 0.25:        # Measure(2)
+                at = rng.choice(adjq)
+                spec.append({"g": "Measure", "n": 2, "at": at})
+                wires[at:at + 2] = ["b", "b"]
+            else:
+                at = rng.choice(qpos)
+                spec.append({"g": "Measure", "at": at})
+                wires[at] = "b"
         elif k == "measure_nd":
             at = rng.choice(qpos)
             spec.append({"g": "Measure", "destructive": False, "at": at})
@@ -197,9 +205,14 @@ def gen_circuit_spec(rng, cfg):
             spec.append({"g": "Discard", "bit": True, "at": at})
             del wires[at]
         elif k == "bra":
-            at = rng.choice(qpos)
-            spec.append({"g": "Bra", "bits": [rng.randint(0, 1)], "at": at})
-            del wires[at]
+            if adjq and rng.random() < 0.35:        # a two-qubit effect: two post-selected bits
+                at = rng.choice(adjq)
+                spec.append({"g": "Bra", "bits": [rng.randint(0, 1), rng.randint(0, 1)], "at": at})
+                del wires[at:at + 2]
+            else:
+                at = rng.choice(qpos)
+                spec.append({"g": "Bra", "bits": [rng.randint(0, 1)], "at": at})
+                del wires[at]
         elif k == "scalar":
             spec.append({"g": "scalar", "s": rng.choice(SCALARS), "at": rng.randint(0, len(wires))})
         elif k == "swapb":
@@ -365,7 +378,8 @@ class World(BaseWorld):
                 type(err).__name__, str(err)[:200]))
         self.case("roundtrip", s["repr"])
         if not close(got.reshape(ref.shape) if got.size == ref.size else got, ref):
-            raise self.vio("roundtrip", "from_tk(to_tk(c)) has another mixed evaluation than c")
+            raise self.vio("roundtrip", "from_tk(to_tk(c)) has another mixed evaluation than c",
+                           got=np.round(got.flatten(), 6).tolist(), ref=np.round(ref.flatten(), 6).tolist())
         return "ok"
 
     def op_import(self, op):
@@ -608,7 +622,7 @@ class Driver:
             self.n += 1
             return {"op": "new", "slot": "c%d" % (self.n - 1), "spec": gen_circuit_spec(gen, cfg)}
         r = sched.random()
-        if r < cfg["p_import"] * 0.4:
+        if r < cfg["p_import"] * 0.5:
             return {"op": "import", "tk": tksim.gen_tk_spec(gen)}
         src = sched.choice(names)
         if r < 0.35:
@@ -711,6 +725,29 @@ def finding_matches(signature, ops, vio):
     listed AND the trigger is present in a circuit the failing operation used."""
     if vio["kind"] not in signature["kinds"]:
         return False
+    if signature.get("message_contains") and signature["message_contains"] not in vio.get("message", ""):
+        return False
+    if signature.get("symptom") == "output_bits_permuted":
+        # the listed defect permutes output bits: same shape, same multiset of values,
+        # equal to the reference after some permutation of the bit axes
+        import itertools
+        d = vio.get("details") or {}
+        try:
+            got = np.asarray([complex(x) for x in d["got"]])
+            ref = np.asarray([complex(x) for x in d["ref"]])
+        except (KeyError, TypeError, ValueError):
+            return False
+        if got.size != ref.size or got.size < 4:
+            return False
+        n = int(round(np.log2(got.size)))
+        g, r = got.reshape((2,) * n), ref.reshape((2,) * n)
+        if not any(np.allclose(np.transpose(g, perm), r, atol=1e-5)
+                   for perm in itertools.permutations(range(n)) if list(perm) != list(range(n))):
+            return False
+    elif signature.get("symptom") == "same_shape_other_values":
+        d = vio.get("details") or {}
+        if "got" in d and "ref" in d and len(d["got"]) != len(d["ref"]):
+            return False
     step = vio.get("step")
     if step is None or step >= len(ops):
         return False
